@@ -828,7 +828,37 @@ func (x *Exec) sliceExpr(s *State, fr *Frame, n *ast.SliceExpr) Value {
 	isStr := false
 	switch u := xt.Underlying().(type) {
 	case *types.Slice:
-		sv, ok := x.expr(s, fr, n.X).(*SliceV)
+		v0 := x.expr(s, fr, n.X)
+		if ov, isOpaque := v0.(*Scalar); isOpaque && ov.T.Sort == SBytes && !n.Slice3 {
+			// opaque byte strings: a sub-slice is an uninterpreted function of the string
+			// and the two indices; only its length is known
+			ln := x.bytesLen(ov.T)
+			oidx := func(e ast.Expr, def Term) Term {
+				if e == nil {
+					return def
+				}
+				v := x.expr(s, fr, e).(*Scalar)
+				signed := isSigned(fr.info.TypeOf(e))
+				if b, ok := fr.info.TypeOf(e).Underlying().(*types.Basic); ok && b.Info()&types.IsUntyped != 0 {
+					signed = true
+				}
+				return x.ctx.Share(Resize(v.T, 64, signed))
+			}
+			lo := oidx(n.Low, I64(0))
+			hi := oidx(n.High, ln)
+			text := exprText(x.w.Fset, n)
+			if n.High != nil {
+				// a[:hi] may extend to the capacity, which opaque strings do not have: only
+				// the cases hi <= len are modelled
+				x.boundsCheck(s, fr, hi, ln, n.Pos(), "slice", text)
+			}
+			x.boundsCheck(s, fr, lo, hi, n.Pos(), "slice", text)
+			r := x.ctx.UF("bytes$sub", SBytes, ov.T, lo, hi)
+			s.assume(Eq(x.bytesLen(r), Sub64(hi, lo)))
+			s.assume(Implies(Slt(I64(0), Sub64(hi, lo)), Not(x.bytesIsNil(r))))
+			return &Scalar{T: r}
+		}
+		sv, ok := v0.(*SliceV)
 		if !ok {
 			unsup("slicing an opaque slice")
 		}
